@@ -902,7 +902,7 @@ class virtualNode(pb.Root):
         for q in self.simQubits:
             if q.simNum == num1:
                 q1 = q
-            elif q.simNum == num2:
+            if q.simNum == num2:
                 q2 = q
 
         self.local_merge_regs(q1, q2)
